@@ -211,6 +211,8 @@ def spec_visit_node(case, nkids, scoped=False):
             mapper[o] = None
         elif case == 'node':
             mapper[o] = handle_node
+        elif case == 'self':
+            mapper[o] = handle_node = o          # an identity entry: the node replaces itself as a whole
         elif case == 'tuple-without-self':
             mapper[o] = (handle_node, other)
         elif case == 'tuple-with-self':
@@ -232,7 +234,7 @@ def spec_visit_node(case, nkids, scoped=False):
         cl = []
         if case == 'none':
             return [('mapped-to-None-is-removed', B(r is None)), ('nothing-written', B(not log))]
-        if case in ('node', 'tuple-without-self'):
+        if case in ('node', 'self', 'tuple-without-self'):
             if case == 'tuple-without-self':
                 # a one-to-many key is only ever visited as an element of a tuple, where the splice has replaced it
                 # (appendix A.3): visited directly the code tries to copy the tuple; not part of the contract
@@ -336,7 +338,7 @@ def _super_hook(clsname, obj):
 def specs(tier='quick'):
     out = []
     for scoped in (False, True):
-        for case in ('unmapped', 'none', 'node', 'tuple-with-self'):
+        for case in ('unmapped', 'none', 'node', 'self', 'tuple-with-self'):
             for n in (0, 1, 2):
                 out.append(spec_visit_node(case, n, scoped))
     for shape in ('', 'n', 'N', 'e', 't', 'nN', 'Nn', 'ne', 'tn', 'nNe', 'Ntn', 'nnn'):
